@@ -74,22 +74,24 @@ type Config struct {
 	RecoverLogin bool `json:"recover_login,omitempty"`
 	EmailAuth    bool `json:"email_auth,omitempty"`
 
-	LogoutMethod   string   `json:"logout_method,omitempty"`
-	MailMethod     string   `json:"mail_method,omitempty"`
-	Whitelist      []string `json:"whitelist,omitempty"`
-	Preserve       []string `json:"preserve,omitempty"`
-	RegWhitelist   []string `json:"reg_whitelist,omitempty"` // extra register whitelist fields
-	MailGo         bool     `json:"mail_go,omitempty"`       // library starts mail goroutines
-	Err500         bool     `json:"err500,omitempty"`
-	OneTimeTOTP    bool     `json:"onetime_totp,omitempty"`
-	Middleware     string   `json:"mw,omitempty"` // "remember" | "expire" | ""
-	ModuleList     bool     `json:"module_list,omitempty"`
-	HTTPS          bool     `json:"https,omitempty"`
-	Providers      []string `json:"providers,omitempty"`
-	LegacyRedirect bool     `json:"legacy_redirect,omitempty"` // Modules.RoutesRedirectOnUnauthed=true instead of ResponseOnUnauthed (module routes only)
-	SetupsFirst    bool     `json:"setups_first,omitempty"`    // the 2FA / expire Setup() calls run before ab.Init()
-	Mailer         string   `json:"mailer,omitempty"`          // "" harness mailbox | "log" defaults.LogMailer | "smtp" defaults.SMTPMailer against a loopback server
-	ShippedLog     bool     `json:"shipped_logger,omitempty"`  // defaults.Logger instead of the capturing logger
+	LogoutMethod    string   `json:"logout_method,omitempty"`
+	MailMethod      string   `json:"mail_method,omitempty"`
+	Whitelist       []string `json:"whitelist,omitempty"`
+	Preserve        []string `json:"preserve,omitempty"`
+	RegWhitelist    []string `json:"reg_whitelist,omitempty"` // extra register whitelist fields
+	MailGo          bool     `json:"mail_go,omitempty"`       // library starts mail goroutines
+	Err500          bool     `json:"err500,omitempty"`
+	OneTimeTOTP     bool     `json:"onetime_totp,omitempty"`
+	Middleware      string   `json:"mw,omitempty"` // "remember" | "expire" | ""
+	ModuleList      bool     `json:"module_list,omitempty"`
+	HTTPS           bool     `json:"https,omitempty"`
+	Providers       []string `json:"providers,omitempty"`
+	LegacyRedirect  bool     `json:"legacy_redirect,omitempty"`  // Modules.RoutesRedirectOnUnauthed=true instead of ResponseOnUnauthed (module routes only)
+	MiddlewareEarly bool     `json:"middleware_early,omitempty"` // expire/remember Middleware(ab) constructed before the instance is configured, applied afterwards
+	NilEmptyState   bool     `json:"nil_empty_state,omitempty"`  // the session store answers (nil, nil) for a browser without session values (LoadClientState supports that)
+	SetupsFirst     bool     `json:"setups_first,omitempty"`     // the 2FA / expire Setup() calls run before ab.Init()
+	Mailer          string   `json:"mailer,omitempty"`           // "" harness mailbox | "log" defaults.LogMailer | "smtp" defaults.SMTPMailer against a loopback server
+	ShippedLog      bool     `json:"shipped_logger,omitempty"`   // defaults.Logger instead of the capturing logger
 
 	Accounts []AccountSpec `json:"accounts"`
 	Browsers int           `json:"browsers"`
@@ -169,12 +171,13 @@ type World struct {
 	MailBuf *SyncBuffer
 	SMTP    *FakeSMTP
 
-	mu          sync.Mutex
-	inflight    int
-	MaxInflight int
-	Concurrent  bool // requests are issued from several goroutines (C20)
-	server      *httptest.Server
-	smtpBase    int
+	mu                         sync.Mutex
+	inflight                   int
+	MaxInflight                int
+	Concurrent                 bool // requests are issued from several goroutines (C20)
+	server                     *httptest.Server
+	smtpBase                   int
+	earlyExpire, earlyRemember func(http.Handler) http.Handler
 }
 
 var (
@@ -308,6 +311,11 @@ func NewWorld(cfg Config) (w *World, err error) {
 
 	ab := authboss.New()
 	w.AB = ab
+	if cfg.MiddlewareEarly {
+		// the constructors are called before the instance is configured (a package-level middleware
+		// list, router.Use(...) at start-up) and applied to the handler later
+		w.earlyExpire, w.earlyRemember = expire.Middleware(ab), remember.Middleware(ab)
+	}
 	ab.Config.Paths.Mount = cfg.Mount
 	if cfg.HTTPS {
 		ab.Config.Paths.RootURL = "https://site.example"
@@ -375,7 +383,7 @@ func NewWorld(cfg Config) (w *World, err error) {
 		return nil
 	}
 	ab.Config.Storage.Server = w.Store
-	ab.Config.Storage.SessionState = StateRW{Session: true, B: w.B, Resolve: resolve}
+	ab.Config.Storage.SessionState = StateRW{Session: true, B: w.B, Resolve: resolve, NilWhenEmpty: cfg.NilEmptyState}
 	ab.Config.Storage.CookieState = StateRW{Session: false, B: w.B, Resolve: resolve}
 
 	ab.Config.Core.ViewRenderer = FaultRenderer{Inner: defaults.JSONRenderer{}, B: w.B, Name: "Render"}
@@ -661,9 +669,17 @@ func (w *World) buildHandler() {
 	}
 	switch w.Cfg.Middleware {
 	case "remember":
-		app = remember.Middleware(ab)(app)
+		if w.earlyRemember != nil {
+			app = w.earlyRemember(app)
+		} else {
+			app = remember.Middleware(ab)(app)
+		}
 	case "expire":
-		app = expire.Middleware(ab)(app)
+		if w.earlyExpire != nil {
+			app = w.earlyExpire(app)
+		} else {
+			app = expire.Middleware(ab)(app)
+		}
 	}
 	inner := app
 	counted := http.HandlerFunc(func(rw http.ResponseWriter, r *http.Request) {
@@ -747,7 +763,11 @@ func (r *Resp) UIDBefore() string { return r.SessBefore[authboss.SessionKey] }
 type recWriter struct {
 	*httptest.ResponseRecorder
 	wrote bool
+	jar   *Jar // the browser this response goes to (a session store that had no state to read still has to write somewhere)
 }
+
+// JarOf lets the client-state stores find the browser when ReadState returned no state.
+func (r *recWriter) JarOf() *Jar { return r.jar }
 
 func (r *recWriter) WriteHeader(c int) { r.wrote = true; r.ResponseRecorder.WriteHeader(c) }
 func (r *recWriter) Write(b []byte) (int, error) {
@@ -863,7 +883,7 @@ func (w *World) Do(q Req) *Resp {
 	w.B.Cancel = cancel
 	nm, ns, nl := w.Mail.Len(), w.SMS.Len(), w.Log.Len()
 	w.B.Reset(q.Fault)
-	rr := &recWriter{ResponseRecorder: httptest.NewRecorder()}
+	rr := &recWriter{ResponseRecorder: httptest.NewRecorder(), jar: jar}
 	base := runtime.NumGoroutine()
 	out.T0 = time.Now()
 	if !w.serve(out, rr, req) {
@@ -941,7 +961,7 @@ func (w *World) serve(out *Resp, rr *recWriter, req *http.Request) bool {
 // doConcurrent is Do without the per-request bookkeeping that only makes
 // sense when requests are serialised (backend call lists, mail/log deltas).
 func (w *World) doConcurrent(out *Resp, jar *Jar, req *http.Request, rec *Record) *Resp {
-	rr := &recWriter{ResponseRecorder: httptest.NewRecorder()}
+	rr := &recWriter{ResponseRecorder: httptest.NewRecorder(), jar: jar}
 	out.T0 = time.Now()
 	if !w.serve(out, rr, req) {
 		out.T1 = time.Now()
